@@ -41,6 +41,9 @@ def _file(draw):
         # a supplemental TEXT segment, in front of DATA or behind it (then a cut can hit it while DATA is complete)
         spec['stext'] = [['KS%d' % i, draw(st.sampled_from(['v', 'val ue', '1', 'x' * 9]))] for i in range(draw(st.integers(1, 3)))]
         spec['stext_after'] = draw(st.booleans())
+    if draw(st.sampled_from([True, False, False])):
+        # text is ISO-8859-1: 'Ã©' are two characters (whose bytes would also read as one UTF-8 character)
+        spec['extra'] = list(spec.get('extra') or []) + [['SRC', 'caf\xc3\xa9 6 \xc2\xb5m']]
     if not spec.get('stext_after') and draw(st.sampled_from([True, False, False])):
         # DATA is the last thing in the file and its end offset is written one past the last byte (= the file size)
         spec['pad'][2] = 0
